@@ -21,9 +21,84 @@ LM = "QtLogger::LogMessage"
 BUILTIN = {"type": None, "line": "line", "file": "file", "function": "function", "category": "category", "message": "message", "time": "time", "threadId": "threadId"}
 
 
+def variant_helper_by_cases(F, h):
+    """a helper QJsonValue f(const QVariant &) evaluated (engine/conc.py) for the scalar attribute types and the boundary values of the statement
+    (|n| <= 2^53, bool, text): each must come out as QJsonValue::fromVariant would make it - a number as a JSON number, not as text.
+    (True/False/None, text)"""
+    from engine.conc import Conc, Unknown
+    MT = {"Bool": 1, "Int": 2, "UInt": 3, "LongLong": 4, "ULongLong": 5, "Double": 6, "QString": 10}
+    if len(h.params) != 1 or "QVariant" not in (h.params[0].get("type") or ""):
+        return None, "the attribute value is converted by %s, which is not a function of one QVariant" % strip_tmpl(h.name).split("::")[-1]
+    pd = h.params[0]["decl"]
+    B = 1 << 53
+    cases = [("Int", v) for v in (-2147483648, -42, -1, 0, 1, 42, 2147483647)] + [("UInt", v) for v in (0, 1, 4294967295)] + \
+            [("LongLong", v) for v in (-B, -42, -1, 0, 1, 42, B)] + [("ULongLong", v) for v in (0, 1, 42, B)] + [("Double", v) for v in (-1.5, 0.0, 2.5)] + \
+            [("Bool", v) for v in (0, 1)] + [("QString", v) for v in ("", "text", "42")]
+    bad = []
+    for tname, v in cases:
+        var = ("variant", tname, v)
+
+        def leaf(n, env, var=var, tname=tname, v=v):
+            if not isinstance(n, dict):
+                return None
+            if n.get("k") == "ref" and n.get("decl") == pd:
+                return var
+            if n.get("k") == "call" and n.get("ck") == "member" and isinstance(n.get("obj"), dict) and strip_tmpl(n.get("cls") or "") == "QVariant":
+                o = skip_copies(n["obj"])
+                if not (o.get("k") == "ref" and o.get("decl") == pd):
+                    return None
+                short = strip_tmpl(n.get("callee") or "").split("::")[-1]
+                num = tname in ("Int", "UInt", "LongLong", "ULongLong", "Bool", "Double")
+                if short in ("userType", "type", "typeId"):
+                    return MT[tname]
+                if short in ("toULongLong", "toUInt") and num:
+                    return int(v) % (1 << (64 if short == "toULongLong" else 32))
+                if short in ("toLongLong", "toInt") and num:
+                    return int(v)
+                if short == "toDouble" and num:
+                    return ("double", float(v))
+                if short == "toString":
+                    return str(v) if tname != "Bool" else ("true" if v else "false")
+                if short == "toBool" and num:
+                    return int(bool(v))
+                if short in ("isNull",):
+                    return 0
+                if short == "isValid":
+                    return 1
+                raise Unknown("QVariant::%s" % short)
+            if is_call(n, "QJsonValue::fromVariant") and n.get("args"):
+                a = cc.eval(n["args"][0], env)
+                return ("json", "as-fromVariant", a)
+            if n.get("k") == "construct" and (n.get("class") or "") == "QJsonValue" and len([a for a in n.get("args", []) if a.get("k") != "defaultarg"]) == 1:
+                a = cc.eval([a for a in n["args"] if a.get("k") != "defaultarg"][0], env)
+                if isinstance(a, tuple) and a and a[0] == "json":
+                    return a
+                return ("json", "text" if isinstance(a, str) else "number" if isinstance(a, (int, float)) or (isinstance(a, tuple) and a[0] == "double") else "?", a)
+            return None
+        cc = Conc(F, leaf=leaf, max_steps=5000)
+        try:
+            got = cc.call_fn(h, [var])
+        except Unknown as e:
+            return None, "the attribute value is converted by %s, which could not be evaluated by cases (%s)" % (strip_tmpl(h.name).split("::")[-1], e)
+        if not (isinstance(got, tuple) and got and got[0] == "json"):
+            return None, "%s: result %r not understood" % (strip_tmpl(h.name).split("::")[-1], got)
+        kind = got[1]
+        want = "text" if tname == "QString" else "number"
+        same = kind == "as-fromVariant" and got[2] == var
+        if not same and not (kind == want and tname != "Bool" and (got[2] == v or got[2] == ("double", float(v)))):
+            bad.append("%s %r comes out as %s %r" % ({"LongLong": "qlonglong", "ULongLong": "qulonglong"}.get(tname, tname.lower()), v, kind, got[2] if kind != "as-fromVariant" else "another value"))
+    nm = strip_tmpl(h.name).split("::")[-1]
+    if bad:
+        return False, "%s() does not convert every attribute value as QJsonValue::fromVariant does: %s - the value is not recovered from the record (a number within |n| <= 2^53 must stay a JSON number)" % (nm, "; ".join(bad[:3]))
+    return True, "%s(it.value()) evaluated for %d scalar values (int / uint / qlonglong / qulonglong at 0, +-1, +-42, +-2^53, the 32-bit limits; double, bool, text): each is converted as QJsonValue::fromVariant converts it" % (nm, len(cases))
+
+
 def run(ck):
     F = ck.facts
     attribute_setter(ck)
+    ck.rule("C13-O7", "the text the record's \"message\" member is made from is the text that was logged: LogMessage stores its message argument unchanged and message() returns it")
+    from rules.oth import message_text_intact
+    message_text_intact(ck, F, "C13-O7", "the \"message\" member of the JSON record is another text than the one that was logged, so the original text is not recovered")
     ck.rule("C13-O1", "format(): every entry of allAttributes() is inserted unconditionally as (it.key(), QJsonValue::fromVariant(it.value())) into the serialised object")
     ck.rule("C13-O2", "allAttributes(): exactly the built-in keys, each bound to its same-named accessor, then overlaid with the custom attributes, returned")
     ck.rule("C13-O3", "the result is QString::fromUtf8(QJsonDocument(obj).toJson(mode)) unedited; mode is Compact iff m_compact")
@@ -171,6 +246,17 @@ def run(ck):
     ck.ob("C13-O1", sitestr(fn, loop), okc, "the loop iterates lmsg.allAttributes()" if okc else "the loop iterates %s" % describe(cont), key="JsonFormatter::format|loop-source")
     insets = [s for s in sets if any(a.get("id") == loop["id"] for a in fn.ancestors(s["node"]))]
     good = [s for s in insets if key_ok(s["keynode"]) and is_call(s["value"], "QJsonValue::fromVariant") and val_ok(skip_copies(s["value"])["args"][0])]
+    if not good:
+        # the conversion goes through a helper of the library: toJsonValue(it.value()).  Decide it by cases over the scalar types the statement names
+        via = [s for s in insets if key_ok(s["keynode"]) and isinstance(skip_copies(s["value"]), dict) and skip_copies(s["value"]).get("k") == "call" and
+               F.fns.get(skip_copies(s["value"]).get("fn")) is not None and F.fns[skip_copies(s["value"])["fn"]].body is not None and
+               any(val_ok(skip_copies(a_)) for a_ in skip_copies(s["value"]).get("args", []))]
+        if via:
+            verdict, why = variant_helper_by_cases(F, F.fns[skip_copies(via[0]["value"])["fn"]])
+            ck.touch(F.fns[skip_copies(via[0]["value"])["fn"]])
+            ck.ob("C13-O1", sitestr(fn, via[0]["node"]), verdict, why, key="JsonFormatter::format|value-conversion")
+            if verdict is not False:
+                good = via
     if not good:
         ck.ob("C13-O1", sitestr(fn, loop), False, "no insertion of (it.key(), fromVariant(it.value())) in the loop: %s" % [describe(s["node"])[:80] for s in insets], key="JsonFormatter::format|no-insert")
     else:
